@@ -242,12 +242,22 @@ func runDumpCase(root string, in *dumpIn, r *rand.Rand, idx int) dumpOut {
 	for _, c := range in.Corrupt {
 		f := fr[c-1]
 		data := stream[f.dataOff : f.dataOff+f.n]
-		// two corruption styles, length unchanged: (a) the record is not a protobuf message any more;
-		// (b) it is one, but a header field is invalid (a byte of the owner ID flipped: its checksum fails),
-		// so decoding fails only after a part of the object has been filled in
-		if pos := bytes.Index(data, owners[c-1]); (idx+c)%2 == 1 && pos >= 0 {
-			data[pos+10] ^= 0x5A
-			continue
+		// three corruption styles, length unchanged: (a) the record is not a protobuf message any more;
+		// (b) valid protobuf, but an early header field is invalid (a byte of the owner ID flipped: its
+		// checksum fails); (c) valid protobuf, the LAST validated header field is invalid (second attribute
+		// key made equal to the first: "duplicated attribute"), i.e. decoding fails after the object has been
+		// filled in almost completely
+		switch (idx + c) % 3 {
+		case 1:
+			if pos := bytes.Index(data, owners[c-1]); pos >= 0 {
+				data[pos+10] ^= 0x5A
+				continue
+			}
+		case 2:
+			if pos := bytes.Index(data, []byte(attrKeyB)); pos >= 0 {
+				data[pos+len(attrKeyB)-1] = attrKeyA[len(attrKeyA)-1]
+				continue
+			}
 		}
 		for k := 0; k < 8 && k < f.n; k++ {
 			data[k] = 0xFF
@@ -327,8 +337,15 @@ func mkDumpObj(r *rand.Rand, cnr cid.ID, pl int) (*object.Object, []byte) {
 	obj.SetPayload(payload)
 	obj.SetPayloadSize(uint64(pl))
 	obj.SetPayloadChecksum(checksum.NewSHA256(sha256.Sum256(payload)))
+	// two attributes whose keys differ in the last byte (corruption style c makes them equal)
+	obj.SetAttributes(object.NewAttribute(attrKeyA, "x"), object.NewAttribute(attrKeyB, "y"))
 	return obj, obj.Marshal()
 }
+
+const (
+	attrKeyA = "verif-attr-A"
+	attrKeyB = "verif-attr-B"
+)
 
 // drawCuts draws byte offsets: segment boundaries, inside magic / length fields, and inside the payload
 // part of the records (see mkDumpObj), either a few or a fixed-size chunking restricted to those places.
